@@ -24,6 +24,7 @@ def run(tier):
         gen_depth={"quick": {"txn": 2}, "thorough": {"txn": 3}},
         rnd={"quick": [("txn", 40, 200)], "thorough": [("txn", 500, 300)]},
         level_text="", pred_doc=DOC,
+        rpc={"quick": [("txn", 4, 80)], "thorough": [("txn", 25, 150)]},
         assumptions=["TLC 1.8 evaluates spec/StoreTrace.tla correctly", "projection copies fields only",
                      "node/service/check verbs are modelled at base-table level (existence, status, links); their payload "
                      "results are not compared here (C07/C10 look at them)"])
